@@ -764,4 +764,120 @@ theorem kinv_foldl (grow : Nat → Nat → Nat) (c : KCfg) :
     have := ih (kafkaStep grow c a e) (done ++ [e]) (kinv_step grow c a done e h (by omega)) (by simp; omega)
     simpa using this
 
+/-! ### decoding the index name back out of the action line -/
+
+/-- `s` is read by the JSON string decoder as `v` -/
+def Dec (s v : Bytes) : Prop := ∀ r, strDecode (s ++ r) = (strDecode r).map (fun x => (v ++ x.1, x.2))
+
+theorem dec_nil : Dec [] [] := by intro r; cases h : strDecode r <;> simp [h]
+
+theorem dec_append {s t v w : Bytes} (hs : Dec s v) (ht : Dec t w) : Dec (s ++ t) (v ++ w) := by
+  intro r
+  rw [List.append_assoc, hs, ht]
+  cases strDecode r <;> simp
+
+theorem dec_single (b : UInt8) (hb : SafeByte b) : Dec [b] [b] := by
+  obtain ⟨h1, h2, h3⟩ := hb
+  intro r
+  conv => lhs; simp only [List.singleton_append]; unfold strDecode
+  split <;> simp_all
+  intro hlt
+  exact absurd hlt (by simpa [UInt8.not_lt] using h1)
+
+theorem dec_of_safe (s : Bytes) (h : ∀ b ∈ s, SafeByte b) : Dec s s := by
+  induction s with
+  | nil => exact dec_nil
+  | cons b bs ih =>
+    have := dec_append (dec_single b (h b (by simp))) (ih (fun x hx => h x (by simp [hx])))
+    simpa using this
+
+theorem dec_esc2 (c : UInt8) (hc : c = 34 ∨ c = 92) : Dec [92, c] [c] := by
+  intro r
+  rcases hc with h | h <;> subst h <;> (conv => lhs; simp only [List.cons_append, List.nil_append]; unfold strDecode) <;>
+    simp [unescapeChar]
+
+theorem hex_dec : ∀ k, k < 32 →
+    hexVal (hexDigit (UInt8.ofNat k >>> 4)) = some (k / 16) ∧ hexVal (hexDigit (UInt8.ofNat k &&& 15)) = some (k % 16) := by
+  decide
+
+theorem utf8_low : ∀ k, k < 32 → utf8 ((((0 * 16 + 0) * 16 + k / 16) * 16) + k % 16) = [UInt8.ofNat k] := by decide
+
+theorem dec_escU (c : UInt8) (hc : c < 32) : Dec [92, 117, 48, 48, hexDigit (c >>> 4), hexDigit (c &&& 15)] [c] := by
+  have hk : c.toNat < 32 := by simpa [UInt8.lt_iff_toNat_lt] using hc
+  have hh := hex_dec c.toNat hk
+  have hu := utf8_low c.toNat hk
+  rw [UInt8.ofNat_toNat] at hh hu
+  have h48 : hexVal 48 = some 0 := by decide
+  intro r
+  conv => lhs; simp only [List.cons_append, List.nil_append]; unfold strDecode
+  simp only [h48, hh.1, hh.2]
+  have hns : ¬ (0xD800 ≤ ((0 * 16 + 0) * 16 + c.toNat / 16) * 16 + c.toNat % 16 ∧
+      ((0 * 16 + 0) * 16 + c.toNat / 16) * 16 + c.toNat % 16 < 0xE000) := by omega
+  rw [if_neg hns, hu]
+
+theorem dec_escapeIdx (v : Bytes) : Dec (escapeIdx v) v := by
+  induction v with
+  | nil => exact dec_nil
+  | cons c cs ih =>
+    unfold escapeIdx
+    split
+    · rename_i h
+      exact dec_append (dec_esc2 c h) ih
+    · split
+      · rename_i h32
+        exact dec_append (dec_escU c h32) ih
+      · rename_i h1 h2
+        have hs : SafeByte c :=
+          ⟨by simpa [UInt8.not_lt] using h2, fun h => h1 (Or.inl h), fun h => h1 (Or.inr h)⟩
+        exact dec_append (dec_single c hs) ih
+
+
+theorem indexValue_dec (c : EsCfg) (e : Ev) (i : Nat) (s : Bytes)
+    (ht : ∀ b ∈ c.time, SafeByte b) (h : indexValue true c e i = some s) :
+    ∃ v, indexValue false c e i = some v ∧ Dec s v := by
+  unfold indexValue at h ⊢
+  split at h
+  · simp at h
+  · rename_i val hv
+    simp only [hv]
+    split at h
+    · rename_i htime
+      simp at h; subst h
+      exact ⟨c.time, by simp [htime], dec_of_safe _ ht⟩
+    · rename_i htime
+      simp only [htime, if_false]
+      split at h
+      · rename_i raw hr
+        simp at h; subst h
+        exact ⟨_, by simp [hr], dec_escapeIdx _⟩
+      · simp at h
+
+theorem expandFormat_dec (c : EsCfg) (e : Ev) (ht : ∀ b ∈ c.time, SafeByte b) :
+    ∀ (fmt : Bytes) (i : Nat) (out out' res : Bytes), (∀ b ∈ fmt, SafeByte b) →
+      expandFormat true c e fmt i out = some res →
+      ∃ x v, res = out ++ x ∧ Dec x v ∧ expandFormat false c e fmt i out' = some (out' ++ v) := by
+  intro fmt
+  induction fmt with
+  | nil =>
+    intro i out out' res _ h
+    simp [expandFormat] at h
+    exact ⟨[], [], by simp [h], dec_nil, by simp [expandFormat]⟩
+  | cons ch rest ih =>
+    intro i out out' res hf h
+    have hrest : ∀ b ∈ rest, SafeByte b := fun b hb => hf b (by simp [hb])
+    unfold expandFormat at h ⊢
+    split at h
+    · rename_i hne
+      obtain ⟨x, v, hx, hd, hv⟩ := ih i (out ++ [ch]) (out' ++ [ch]) res hrest h
+      refine ⟨[ch] ++ x, [ch] ++ v, by simp [hx], dec_append (dec_single ch (hf ch (by simp))) hd, ?_⟩
+      simp [hne, hv]
+    · rename_i heq
+      split at h
+      · simp at h
+      · rename_i s hs
+        obtain ⟨w, hw, hdw⟩ := indexValue_dec c e i s ht hs
+        obtain ⟨x, v, hx, hd, hv⟩ := ih (i + 1) (out ++ s) (out' ++ w) res hrest h
+        refine ⟨s ++ x, w ++ v, by simp [hx], dec_append hdw hd, ?_⟩
+        simp [heq, hw, hv]
+
 end FileD.Payload
